@@ -20,7 +20,7 @@ CHECKS = {
    technique='TLA+ dimensional algebra (Units!Dictated, QuantityOps!AllowedBin) model-checked on the design heap machine + TLC trace validation of every recorded binary operation (Trace_Quantity.tla)',
    text=('QuantityOps.tla states, for every ordered pair of (13 kinds + number) and each of + - * /, the set of allowed outcomes (result kind from dimension vectors, exact SI magnitude, '
          'TypeError / ValueError / ZeroDivisionError where justified). MC_Quantity explores the design heap machine (all programs of 2 constructs + 1 operation over a small value set; invariants '
-         'ResultExact, InverseLaws, HeapValid). The harness enumerates ALL kind pairs x operators (x unit pairs) on the real classes and TLC decides each recorded outcome and the two inverse laws.'),
+         'ResultExact, InverseLaws, HeapValid). The harness enumerates ALL kind pairs x operators (x unit pairs) on the real classes and TLC decides each recorded outcome and the two inverse laws; straight-line programs add operands with a history (converted in place; copies handed out by to() spoiled in place before the source is used).'),
    ref='DESIGN.md section 4 C06, section 3.2',
    note=TB + '; TypeError is accepted for any combination the documentation does not name (Units!MustReturn lists those that must return).'),
  'C19': dict(
@@ -35,14 +35,14 @@ CHECKS = {
    technique='TLA+ motor characteristic (Motor.tla) with its documented consequences model-checked on a rational grid + TLC trace validation of recorded compute_torque / compute_electric_current calls (Trace_Motor.tla)',
    text=('Motor.tla transcribes the documented torque and current laws; TLC checks their stated consequences (standstill, no-load point, continuity across the dead-zone boundary, oddness) exactly on a grid. '
          'The harness drives real DCMotor objects (constants in random units) over duty cycles including the dead-zone boundary as decimal and float quotient and its +-1,+-2 ulp neighbours, '
-         'and speeds beyond no-load speed, revisit sequences on one motor object, the driving torque handed back through the setter in another unit; TLC decides every recorded output against the spec in exact arithmetic; neither call may raise. The recorded motor current of every instant of the shared solver campaign is judged by the same law (SolverOps!CurrentFails).'),
+         'and speeds beyond no-load speed, revisit sequences on one motor object, the driving torque handed back through the setter in another unit, constants of a built motor re-expressed in place; TLC decides every recorded output against the spec in exact arithmetic; neither call may raise. The recorded motor current of every instant of the shared solver campaign is judged by the same law (SolverOps!CurrentFails).'),
    ref='DESIGN.md section 4 C08, section 3.3',
    note=TB + '; the branch taken within 1e-10 relative of the dead-zone boundary is not judged (value still is).'),
  'C09': dict(
    technique='TLA+ gear formulas and flags (Gear.tla; Lewis table, virtual teeth, squared Hertz stress; lemmas model-checked) + TLC trace validation of real gear objects over the complete flag space (Trace_Gear.tla)',
    text=('Gear.tla states the Lewis interpolation, virtual teeth number, tangential force per role, bending stress (incl. worm-wheel form) and squared Hertz stress with helix angles as rational functions of tan(beta/2); '
          'TLC checks lemmas (beta=0 reduces to spur, interpolation through the table, monotone, clamped). The harness builds real gears for every teeth number 10..520, every subset of optional data x roles x mated/unmated '
-         '(complete finite flag space), compute / re-mate / compute sequences and seeded random parameters in random units; TLC decides flags, ValueError contract and every value. The recorded force / bending / contact stress of every gear at every instant of the shared solver campaign is judged by the same formulas (SolverOps!StressFails).'),
+         '(complete finite flag space), compute / re-mate / compute sequences, parameters re-expressed in place between computations, and seeded random parameters in random units; TLC decides flags, ValueError contract and every value. The recorded force / bending / contact stress of every gear at every instant of the shared solver campaign is judged by the same formulas (SolverOps!StressFails).'),
    ref='DESIGN.md section 4 C09, section 3.4',
    note=TB + '; tan(beta/2) is computed with math.tan from the angle the object holds; tan 20 deg and pi are 50-digit rationals; the worm thread force is modelled as implemented (O4).'),
 
@@ -116,7 +116,7 @@ CHECKS = {
    note=TB + '; well-conditioned dynamics only (no spring-like / negative-damping loads) so that "same up to rounding" is decidable; known finding F4 is matched structurally.'),
  'C07': dict(
    technique='every model executed twice (SI units vs every input quantity in a random unit, unit table from Units.tla) and the two recorded executions compared by TLC (Trace_Pair.tla); the re-expressed execution must itself be a behaviour of Trace_Solver.tla',
-   text=('The specification is unit-blind (SI rationals); Units.tla generates the presentations. Construction outcome, per-call outcomes, stop instants and all histories of the two presentations must agree; '
+   text=('The specification is unit-blind (SI rationals); Units.tla generates the presentations. Construction outcome, per-call outcomes, stop instants, all histories and the snapshot tables (default units, at the recorded instants) of the two presentations must agree; '
          'the unit list of every input kind is covered across the campaign (reported), time units of dt / T / continuation are re-chosen per run.'),
    ref='DESIGN.md section 4 C07, 2.3',
    note=TB + '; pairs containing a decision within rounding distance of its threshold (reported by the trace spec as U| lines) are counted as unjudged.'),
@@ -130,7 +130,7 @@ CHECKS = {
  'C18': dict(
    technique='TLA+ table semantics (Snapshot.tla: requested columns, linear interpolation, unit conversion via Units.tla, NaN exactly for unrecorded variables; CSV export) + TLC validation of real snapshot tables and re-read CSV files (Trace_Snapshot.tla)',
    text=('Real simulated powertrains are snapshot at recorded instants, between them and at both ends (target time in any unit) for no selection, every singleton, every complement, pairs and random subsets (thorough: every non-empty subset) '
-         'with output units from every unit list; exported CSVs are re-read. TLC checks the column set exactly, every cell and every CSV value against the recorded history.'),
+         'with output units from every unit list; exported CSVs are re-read; histories are never uniformly spaced (continuations with other steps and time units) and may hold samples of mixed units; the full table is read at every recorded instant and every interval midpoint. TLC checks the column set exactly, every cell and every CSV value against the recorded history. Notes only (outside the statement): Powertrain.plot figures read back from the Agg backend, API error contracts, sensor readings.'),
    ref='DESIGN.md section 4 C18',
    note=TB + '; only variables that some element records are requested.'),
 }
